@@ -18,8 +18,8 @@ import SimuVerif.Gen.NodeNormals
     C07  `Gen.rule1` = `resolve_contact`, gates `Gen.nodeGate1`, `Gen.pairGate1`, `Gen.mkParams12`   (Gen/ContactRule.lean, Gen/Kernel.lean)
     C04  `Gen.CellCycle.readyEpithelial`, `belowMinVol`, `divisionPeriod`                           (Gen/CellCycle.lean)
     new  `Gen.NodeNormals.*` = `cell::compute_node_curvature_and_normals`                           (Gen/NodeNormals.lean)
-  (all `Gen.*` are regenerated from the C++ text on every run).  Hand-written here: the loops / containers that connect them
-  and `epithelial_cell::special_polarization_update` (`polariseFace`).
+  (all `Gen.*` are regenerated from the C++ text on every run; `Gen.NodeNormals.polariseDecision` is the decision tree of
+  `epithelial_cell::special_polarization_update`).  Hand-written here: the loops / containers / bindings that connect them.
 
   `solver::run_iteration`, statement by statement:
     1. `save_mesh()`                       writes files (`rebase` of a mesh without unused slots keeps every index)      — omitted
@@ -280,23 +280,17 @@ def hasEdge (F : List Face) (a b : Nat) : Bool := a != b && F.any (fun g => g.ha
 /-- the faces of `cell_lst[i]` (their sides are its edge set) -/
 def otherFaces (cells : List (Cell R)) (i : Nat) : Option (List Face) := (cells[i]?).map fun c => c.faces
 
-/-- the body of the face loop of `epithelial_cell::special_polarization_update` (POLARIZATION_MODE_INDEX 1, CONTACT_MODEL_INDEX 1) -/
+/-- the body of the face loop of `epithelial_cell::special_polarization_update` (POLARIZATION_MODE_INDEX 1, CONTACT_MODEL_INDEX 1): the
+    bindings (three nodes, their couplings, `cell_lst[n1_c2_id]`, the three `get_edge(…).has_value()`); the decision itself is the
+    generated `polariseDecision`.  A coupling that names a cell which does not exist (undefined in the C++) cannot reach this point
+    inside the domain: loop (A) of the coupling pass has dereferenced every coupling (`defined`); the model reads an empty edge set -/
 def polariseFace (cells : List (Cell R)) (c : Cell R) (fi : Nat) (f : Face) : Face :=
   match c.coup.getD f.a none, c.coup.getD f.b none, c.coup.getD f.c none with
   | some q1, some q2, some q3 =>                                        -- n1.is_coupled() && n2.is_coupled() && n3.is_coupled()
-    let fnrm := (c.fgeom.getD fi (vzero, lit 0)).1
-    let b1 := decide ((lit 0 : R) < V3.dot (c.normal.getD f.a vzero) fnrm)
-    let b2 := decide ((lit 0 : R) < V3.dot (c.normal.getD f.b vzero) fnrm)
-    let b3 := decide ((lit 0 : R) < V3.dot (c.normal.getD f.c vzero) fnrm)
-    if b1 || b2 || b3 then
-      if q1.1 = q2.1 ∧ q1.1 = q3.1 then
-        match otherFaces cells q1.1 with
-        | some F2 =>
-          if hasEdge F2 q1.2 q2.2 && hasEdge F2 q2.2 q3.2 && hasEdge F2 q3.2 q1.2
-          then { f with ty := 1 } else { f with ty := 0 }
-        | none => f                                                      -- cell_lst[n1_c2_id] out of range: undefined
-      else { f with ty := 1 }
-    else { f with ty := 0 }
+    let F2 := (otherFaces cells q1.1).getD []
+    { f with ty := Gen.NodeNormals.polariseDecision (c.normal.getD f.a vzero) (c.normal.getD f.b vzero) (c.normal.getD f.c vzero)
+                     (c.fgeom.getD fi (vzero, lit 0)).1 q1.1 q2.1 q3.1
+                     (hasEdge F2 q1.2 q2.2) (hasEdge F2 q2.2 q3.2) (hasEdge F2 q3.2 q1.2) }
   | _, _, _ => f
 
 def polariseCell (cells : List (Cell R)) (c : Cell R) : Cell R :=
